@@ -225,12 +225,18 @@ where
         challenger.check_pow_witness(circuit, params.final_pow_bits, proof.final_pow_witness)?;
     }
 
-    // Final STIR queries: domain = final_round_config.domain_size >> final_sumcheck_rounds.
-    let final_folded_size = params.final_domain_size >> params.final_sumcheck_rounds;
+    // Final STIR queries open the last committed oracle, whose leaves were folded with the last
+    // round's folding factor (native: `final_round_config().folding_factor`). That equals
+    // `final_sumcheck_rounds` only when the number of variables is a multiple of the folding factor.
+    let final_folding_factor = params
+        .round_params
+        .last()
+        .map_or(params.final_sumcheck_rounds, |rp| rp.folding_factor);
+    let final_folded_size = params.final_domain_size >> final_folding_factor;
     let final_domain_bits = p3_util::log2_strict_usize(final_folded_size);
     let final_dims = vec![Dimensions {
         height: final_folded_size,
-        width: 1usize << params.final_sumcheck_rounds,
+        width: 1usize << final_folding_factor,
     }];
 
     let final_query_r: Vec<Target> = if is_suffix {
